@@ -74,7 +74,8 @@ func c08Monitor(args []string) int {
 	rep := NewReport("c08-monitor")
 	defer restoreDefaults()
 	batch := movegen.NewMoveGen()
-	od := movegen.NewMoveGen() // one on-demand generator reused across all positions
+	od := movegen.NewMoveGen()      // one on-demand generator reused across all positions
+	legalMg := movegen.NewMoveGen() // one generator for all legal-move-list queries
 	hist := history.NewHistory()
 	seen := map[uint64]bool{}
 	abandoned := false
@@ -112,6 +113,35 @@ func c08Monitor(args []string) int {
 			sort.Ints(union)
 			if !eqInts(union, allS) {
 				rep.Violate("modes-do-not-partition", base, fmt.Sprintf("nonquiet+quiet = [%s] ; all = [%s]", codesToUci(union), codesToUci(allS)))
+			}
+			// the legal move lists per mode, asked one after the other of ONE generator (in a random order of the
+			// modes), are the pseudo-legal lists of that mode filtered for legality, and HasLegalMove agrees
+			{
+				lmg := legalMg
+				order := [][]movegen.GenMode{{movegen.GenNonQuiet, movegen.GenQuiet, movegen.GenAll}, {movegen.GenAll, movegen.GenNonQuiet, movegen.GenQuiet}, {movegen.GenQuiet, movegen.GenAll, movegen.GenNonQuiet}}[rng.Intn(3)]
+				for _, md := range order {
+					var want []int
+					for _, m := range get(md, false) {
+						if p.IsLegalMove(m) {
+							want = append(want, int(m.MoveOf()))
+						}
+					}
+					sort.Ints(want)
+					var got []int
+					for _, m := range *lmg.GenerateLegalMoves(p, md) {
+						got = append(got, int(m.MoveOf()))
+					}
+					sort.Ints(got)
+					if !eqInts(got, want) {
+						in := map[string]interface{}{"fen": fen, "promotions_non_quiet": promNQ, "mode": modeName(md), "modes_asked_in_order": fmt.Sprint(order)}
+						rep.Violate("on-demand-differs-from-batch", in, fmt.Sprintf("legal move list of the mode [%s] ; pseudo-legal moves of the mode that are legal [%s]", codesToUci(got), codesToUci(want)))
+						break
+					}
+					if md == movegen.GenAll && lmg.HasLegalMove(p) != (len(got) > 0) {
+						rep.Violate("has-legal-move-wrong", map[string]interface{}{"fen": fen}, fmt.Sprintf("HasLegalMove=%v, %d legal moves", lmg.HasLegalMove(p), len(got)))
+					}
+				}
+				rep.Stats["legal_lists_per_mode_on_one_generator"]++
 			}
 			// evasion mode
 			if inCheck {
